@@ -58,10 +58,17 @@ func valueOf(typ string) any {
 }
 
 // variants lists the parameter-map variants for a query with parameter symbols P.
-func variants(P []string) []string {
+func variants(P []string, full bool) []string {
 	out := []string{"nil-map", "empty-map", "keys-named-like-variables"}
 	if len(P) == 0 {
 		return out
+	}
+	if !full {
+		// queries with three features: the value types that take different paths through parameter negotiation
+		for _, t := range []string{"string", "int64", "strings", "nil", "unsupported"} {
+			out = append(out, "all:"+t)
+		}
+		return append(out, "ast:string", "ast:nil")
 	}
 	for _, t := range valueTypes {
 		out = append(out, "all:"+t, "ast:"+t)
@@ -183,11 +190,18 @@ func panicClass(r tresult) string {
 }
 
 // runTotality enumerates items x parameter renamings x parameter-map variants.
-func runTotality(run *core.Run, items []xlate.Item) {
-	type job struct {
-		item xlate.Item
+// The translations of one process run one after the other (a defect that shares state between calls then shows up as
+// a wrong result or a history dependence instead of crashing the checker with a runtime fatal error); the items are
+// sharded over the forked worker processes. Concurrency is the business of the schedule part and the race pass.
+func runTotality(run *core.Run, all []xlate.Item) {
+	shard, shards, _ := run.Worker()
+	var items []xlate.Item
+	for i, it := range all {
+		if i%shards == shard {
+			items = append(items, it)
+		}
 	}
-	workers := xlate.Workers()
+	workers := 1
 	mappers := make([]*xlate.Mapper, workers)
 	for i := range mappers {
 		mappers[i] = xlate.NewMapper()
@@ -240,7 +254,7 @@ func runTotality(run *core.Run, items []xlate.Item) {
 			defer func() { done <- w }()
 			for i := w; i < len(items); i += workers {
 				it := items[i]
-				base, err := cyq.Parse(it.Text)
+				base, err := xlate.ParseItem(it)
 				if err != nil {
 					mu.Lock()
 					outcomes["parse-error"]++
@@ -258,7 +272,7 @@ func runTotality(run *core.Run, items []xlate.Item) {
 				}
 				q := base
 				for ri, rn := range renames {
-					vs := variants(P)
+					vs := variants(P, len(it.Features) <= 2)
 					if ri > 0 {
 						// collision variants: the interesting maps only
 						vs = []string{"nil-map", "all:string", "all:nil", "ast:string"}
@@ -273,7 +287,7 @@ func runTotality(run *core.Run, items []xlate.Item) {
 						slots[w].started.Store(time.Now().UnixNano())
 						r := evaluateOn(q, c, mappers[w])
 						slots[w].started.Store(0)
-						record(i*1000+ri*50+vi, c, r)
+						record((i*shards+shard)*1000+ri*50+vi, c, r)
 						// the same AST serves all variants (purity was just checked); after an impure call or an AST-level
 						// renaming (a renamed parameter may now share its symbol with another one) start from a fresh parse
 						if r.impure != "" || len(rn) > 0 {
@@ -292,7 +306,7 @@ func runTotality(run *core.Run, items []xlate.Item) {
 								mu.Unlock()
 								if again != first {
 									mu.Lock()
-									findings = append(findings, finding{i*1000 + 999, core.Violation{Class: "nondeterministic-translation", Summary: fmt.Sprintf("two translations of %q differ:\n  %s\n  %s", it.Text, first, again), Artefact: hartefact{Part: "history", Second: hcase{Text: it.Text, Variant: variant}, Repeat: 20}}})
+									findings = append(findings, finding{(i*shards+shard)*1000 + 999, core.Violation{Class: "nondeterministic-translation", Summary: fmt.Sprintf("two translations of %q differ:\n  %s\n  %s", it.Text, first, again), Artefact: hartefact{Part: "history", Second: hcase{Text: it.Text, Variant: variant}, Repeat: 20}}})
 									mu.Unlock()
 									break
 								}
@@ -340,7 +354,7 @@ func runTotality(run *core.Run, items []xlate.Item) {
 	run.Add("totality_parameter_collision_variants", renamed)
 	run.Add("determinism_repeated_translations", repeats)
 	run.Set("totality_outcomes", outcomes)
-	run.Set("totality_distinct_queries_translated_or_rejected", int64(len(distinct)))
+	run.Add("totality_distinct_queries_translated_or_rejected", int64(len(distinct)))
 	top := map[string]int64{}
 	type kv struct {
 		k string
